@@ -173,7 +173,8 @@ class Dm1:
         self._ca.add_timer(delta_time=cycletime, callback=self._send, cookie=cookie)
 
     def stop_send(self, callback):
-        self._ca.remove_timer(callback)
+        # the timer has been registered with self._send (start_send passes the callback as cookie only)
+        self._ca.remove_timer(self._send)
 
     @property
     def dtc_dic_list(self):
